@@ -111,3 +111,47 @@ def report(ck, results, prop_ops=None, min_agree=10):
     if hist['agree'] < min_agree:
         ck.unproved('correspondence:' + ck.pid, 'only %d of %d cases could be compared (engine or model rejects the rest): %s' % (hist['agree'], len(results), dict(hist)))
     return hist
+
+
+def replay(ck):
+    """`./check Cxx --replay replays/<file>.json`: re-run the stored script and data on the real engine and on
+    the model; report whether they (still) disagree."""
+    import json
+    from fractions import Fraction
+    rp = json.load(open(ck.replay_path))
+    r = rp.get('replay', rp)
+    structs = r['structures']
+    env = {}
+    for d in structs['datasets']:
+        ids = [(c['name'], c['type']) for c in d['DataStructure'] if c['role'] == 'Identifier']
+        meas = [(c['name'], c['type']) for c in d['DataStructure'] if c['role'] != 'Identifier']
+        rows = []
+        for row in r['data'].get(d['name'], []):
+            vals = []
+            for (n, t), v in zip(ids + meas, row):
+                if v is None:
+                    vals.append(None)
+                elif t == 'Integer':
+                    vals.append(int(v))
+                elif t == 'Number':
+                    vals.append(Fraction(v))
+                elif t == 'Boolean':
+                    vals.append(v == 'True')
+                else:
+                    vals.append(v)
+            rows.append(tuple(vals))
+        env[d['name']] = {'ids': ids, 'meas': meas, 'rows': rows}
+    case = {'env': env, 'vtl': r['script'], 'ops': [], 'flat': False, 'depth': 0}
+    ans = ck.driver('Sem', [r['model_request']])[0]
+    out = R.run_engine([case], jobs=1)[0]
+    v, d = R.compare(case, ans, out)
+    print('script :', r['script'])
+    print('model  :', ans[:400])
+    print('engine :', str(out)[:600])
+    print('verdict:', v, str(d)[:300])
+    ck.count((r['script'],), nontrivial=True)
+    ck.count((r['script'], 'replay'), nontrivial=True)
+    ck.sample({'replayed': ck.replay_path, 'verdict': v})
+    ck.cov['rule'] = 'replay of one stored case'
+    if v.startswith('DISAGREE'):
+        ck.violation(rp.get('key', 'replay'), r, 'replayed case still disagrees: ' + v)
